@@ -185,6 +185,30 @@ CHECKS["C02"] = dict(
          "decided by harness-evaluated numeric verdicts (tolerances 1e-9 / 1e-7 / 1e-5), which is numeric testing under TLC's bookkeeping, not model checking.",
     technique="TLA+ spec (LatticeForces, exact) model-checked by TLC + TLC validation (ForceTrace) of real forces: exact on lattice meshes, harness-evaluated verdicts on generic meshes")
 
+CHECKS["C06"] = dict(
+    category="model_checking", design_ref="DESIGN.md §C06, §3.3",
+    text="spec/Contact/BroadPhase models the broad phase along one axis on the integer lattice (padded face boxes, global box with its extra padding, voxel size "
+         "3*l_min + 2*cut-off, registration interval of every face, single-voxel lookup of every node, the three epsilon regimes of the grid origin / size); TLC "
+         "checks Complete, RangeImpliesBox and NoOOB exhaustively (36300 arrangements) and refutes the registration rule of the code before the fix. Per-axis "
+         "completeness gives completeness in space because registration, lookup and the AABB test are per-axis products. Binding: real contact_model::run in the "
+         "builds of contact models 1 and 0 (and 2 in the thorough tier; 1/8/16 threads) on lattice tissues -- two shapes at every relative offset of a window, "
+         "three units, positions straddling the origin and far from it, exact voxel alignment, 3-4 cells -- against the model's own public narrow phase applied "
+         "to ALL node-triangle pairs of different cells: forces equal and adding up to zero.",
+    note="Lattice tissues only; two epithelial cells are never adjacent (order-dependent couplings belong to C08/C03); the reference shares the narrow phase with "
+         "the code under test on purpose (the property is about the broad phase).",
+    technique="TLA+ spec (BroadPhase) model-checked by TLC + whole-run replay of lattice tissues into the real contact models against an all-pairs reference")
+CHECKS["C07"] = dict(
+    category="model_checking", design_ref="DESIGN.md §C07, §3.3",
+    text="spec/Contact/ContactRule states the narrow phase on the integer lattice on top of spec/ClosestPoint: forbidden side (reversed for epithelial-vs-ECM and "
+         "nucleus-vs-epithelial), cut-off test, reaction distributed with the barycentric weights; TLC checks Reciprocal, NoForceOutOfRangeOrSameCell, PushesBack "
+         "and OverlapResolved over every node position of a box, four triangles, the 24 type pairs and two cut-offs (48384 states). Every case (quick: a balanced "
+         "sample of 5000) is replayed through the public narrow phase of the real models 1 and 0 (2 in the thorough tier) at two units and three offsets and "
+         "validated by TLC (ContactTrace): forces add up to zero, nothing beyond the cut-off, exact repulsion forces on the forbidden side, nothing (or only "
+         "attraction, spring model) on the allowed side.",
+    note="A node exactly in the tangent plane (d.n = 0) is decided by rounding and only required to be reciprocal and short-ranged (margin rule); two epithelial "
+         "cells are excluded (couplings); the spring model's adhesion amplitude (sqrt) is checked for direction, range and reciprocity only.",
+    technique="TLA+ spec (ContactRule over ClosestPoint) model-checked by TLC + TLC validation (ContactTrace) of the real narrow phase on every enumerated case")
+
 PENDING = {}   # property id -> reason (filled below for everything not in CHECKS)
 NOT_APPLICABLE = {
  "C10": "memory safety / undefined behaviour has no representation in a TLA+ state (no addresses, lifetimes or indeterminate values); "
